@@ -1,18 +1,20 @@
 """C19 — Texture path clean-up is canonical and idempotent.
 
 Proof: coq/Properties/Properties_C19.v about `clean`, the step-by-step model of the lambda fTrimPath
-of NifFile::TrimTexturePaths (coq/Path/PathModel.v), for all byte lists: blank -> empty, no '/',
-no trailing whitespace, single backslashes (no adjacent different separators in the input),
-canonical form and idempotence for the prefixing games, canonical + idempotent for OB/Special
-exactly outside two defect classes; the unconditional statements are REFUTED with witnesses.
+of NifFile::TrimTexturePaths (coq/Path/PathModel.v, the code as repaired by fixes/C19-*.patch), for
+all byte lists: blank -> empty, no '/', no trailing whitespace, single backslashes, canonical form
+and idempotence for the prefixing games (terrain or not), canonical + idempotent for OB/Special
+exactly outside two defect classes; the unconditional statements for OB/Special are REFUTED with
+witnesses.
 
 Tie: every case goes through the real NifFile (ASan/UBSan build; texture set entry, effect shader
 texture, NiSourceTexture via NiTexturingProperty; explicit TrimTexturePaths twice, and Save+Load)
 and through the extracted model. The extracted `canonical` predicate is evaluated on the
 IMPLEMENTATION's outputs and idempotence is tested on the implementation (clean vs clean-clean):
-that is the failing-input search. Failures that fall into a class recorded in known_findings.json
-(and on which the implementation agrees with the model, whose behaviour there is proved) are
-reported as KNOWN-FINDING, everything else as VIOLATION."""
+that is the failing-input search. Failures that fall into a class recorded as "known" in
+known_findings.json (and on which the implementation agrees with the model, whose behaviour there is
+proved) are reported as KNOWN-FINDING; failures in a class recorded as "fixed" mean the repaired
+defect is back and are VIOLATIONs, as is everything else."""
 import concurrent.futures as cf
 import hashlib
 import itertools
@@ -49,12 +51,14 @@ WS = b"\t\n\x0b\x0c\r "
 # witnesses of the *_refuted theorems of Properties_C19.v (np, terrain, path) + the repository's test
 WITNESSES = [
     (0, 0, b"a\\textures\\b\\textures\\c.dds"),   # C19_clean_idem_refuted_ob / _canonical_refuted_ob
-    (0, 1, b"textures\\a"),                        # C19_clean_idem_refuted_ob_terrain
+    (0, 1, b"a\\textures\\b\\textures\\c.dds"),   # C19_clean_idem_refuted_ob_terrain
     (0, 0, b"\\ a"),                               # C19_clean_canonical_refuted_ob_ws
     (0, 0, b"x\n\\textures\\a"),                   # C19_clean_canonical_refuted_ob_newline
-    (1, 0, b"a/\\b"),                              # C19_clean_idem_refuted_mixed
-    (1, 1, b"textures\\textures\\x"),              # C19_clean_idem_refuted_terrain
-    (1, 1, b"TEXTURES\\a"),                        # C19_clean_idem_refuted_terrain_case
+    # inputs of the repaired defects (regression): mixed separators, terrain re-strip
+    (1, 0, b"a/\\b"), (0, 0, b"a\\/b"), (1, 1, b"x/\\/\\y"),
+    (1, 1, b"textures\\textures\\x"), (1, 1, b"Data\\textures\\textures\\x"), (1, 1, b"TEXTURES\\a"),
+    (1, 1, b"Data\\TEXTURES\\a"), (0, 1, b"textures\\a"), (0, 1, b"Data\\textures\\a"), (1, 1, b"data/Textures/a"),
+    (1, 0, b"Data\\textures\\a"),
     (1, 0, b" \\Data\\\\Textures//white.dds\r\n  "),
     (1, 1, b" \\Data\\\\Textures//white.dds\r\n  "),
     (0, 0, b" \\Data\\\\Textures//white.dds\r\n  "),
@@ -70,9 +74,9 @@ def case_line(op, v, kind, slot, terrain, p):
     return "%s v=%s kind=%s slot=%d np=%d terrain=%d p=%s" % (op, v, kind, slot, NP_OF[v], terrain, p.hex())
 
 
-def pick(rng, np, terrain, op="clean", eff_share=0.04):
-    """a (version, kind, slot) for the configuration; effect shaders only for a small share (they
-    are never cleaned at all: known finding), and only where np = 1 (no effect shader in OB files)"""
+def pick(rng, np, terrain, op="clean", eff_share=0.2):
+    """a (version, kind, slot) for the configuration; effect shaders only where np = 1 (there is no
+    effect shader in OB files)"""
     if np == 1 and rng.random() < eff_share:
         ts = targets_for(np, ("eff",), op == "load", terrain)
     else:
@@ -107,7 +111,7 @@ def gen_cases(tier, rng):
     cases = []
     # 1. witnesses of the refutation theorems, on every target of their configuration
     for (np, terrain, p) in WITNESSES:
-        for (v, kind, slots, lslots, _t) in targets_for(np, ("set", "src"), terrain=terrain):
+        for (v, kind, slots, lslots, _t) in targets_for(np, ("set", "src", "eff"), terrain=terrain):
             cases.append(case_line("clean", v, kind, slots[0], terrain, p))
             if lslots:
                 cases.append(case_line("load", v, kind, lslots[0], terrain, p))
@@ -231,12 +235,13 @@ def run_parallel(binp, fam, cases, timeout_per_batch, batch):
 
 def new_stats():
     return {"mismatch": 0, "specfail": 0, "known": {}, "crash": 0, "exceptions": 0, "idem_checked": 0, "canon_checked": 0,
-            "validated": 0, "unexplained": 0, "mism_samples": [], "harness_err": [], "nontriv": set(), "dist": {}}
+            "validated": 0, "unexplained": 0, "fixed_back": {}, "mism_samples": [], "harness_err": [], "nontriv": set(), "dist": {}}
 
 
 def evaluate(rep, stats, impl, model, model_bin):
     """one block of cases: impl/model = lists of (case, line, crash)"""
     known = {k["id"]: k for k in rep.known}
+    fixed = {k["id"]: k for k in vlib.load_known() if k.get("property") == PID and k.get("status") == "fixed"}
     facts, harness_err = [], stats["harness_err"]
     for (c, il, crash), (_, ml, mcrash) in zip(impl, model):
         kv = parse_kv(c)
@@ -280,7 +285,7 @@ def evaluate(rep, stats, impl, model, model_bin):
         stats["validated"] += 1
         key = "%s np=%d terrain=%d %s" % (f["op"], f["np"], f["terrain"], f["kind"])
         stats["dist"][key] = stats["dist"].get(key, 0) + 1
-        if f["I"] != f["p"] and f["I"] != b"" and f["kind"] != "eff":
+        if f["I"] != f["p"] and f["I"] != b"":
             stats["nontriv"].add(hashlib.blake2b(b"%d%d" % (f["np"], f["terrain"]) + f["p"], digest_size=8).digest())
         can = canon.get((f["np"], f["terrain"], f["I"]))
         idem = f["I"] == f["J"]
@@ -289,23 +294,26 @@ def evaluate(rep, stats, impl, model, model_bin):
         stats["canon_checked"] += 1
         fails = [n for n, ok in (("not-canonical", can is not False), ("not-idempotent", idem), ("blank-not-empty", blank_ok)) if not ok]
         f["fails"] = fails
-        if fails:
-            stats["specfail"] += 1
+        if fails or not f["agrees"]:
+            if fails:
+                stats["specfail"] += 1
             hit = [kid for kid, k in known.items() if matches(k.get("match", {}), f)]
+            # a repaired defect coming back: the model describes the repaired code, so agreement with
+            # the model is not asked for here
+            back = [kid for kid, k in fixed.items()
+                    if matches({a: b for a, b in k.get("match", {}).items() if a != "impl_agrees_with_model"}, f)]
             if hit:
                 for kid in hit:
                     stats["known"][kid] = stats["known"].get(kid, 0) + 1
                     rep.known_finding(kid, f["case"])
-            else:
+            elif back:
+                stats["fixed_back"][back[0]] = stats["fixed_back"].get(back[0], 0) + 1
+                if stats["fixed_back"][back[0]] <= 5:
+                    rep.violation("the repaired defect %s is back: texture path %r is cleaned to %r, then %r (%s, %s slot)" %
+                                  (back[0], f["p"][:60], f["I"][:60], f["J"][:60], f["v"], f["kind"]) if stats["fixed_back"][back[0]] == 1 else
+                                  "the repaired defect %s is back" % back[0], dict(show(f), family="path", finding=back[0]))
+            elif fails:
                 unexplained.append(f)
-        elif not f["agrees"]:
-            # same observable class as a recorded finding (only the effect-shader entry can match
-            # here: the other classes require agreement with the model)
-            hit = [kid for kid, k in known.items() if matches(k.get("match", {}), f)]
-            if hit:
-                for kid in hit:
-                    stats["known"][kid] = stats["known"].get(kid, 0) + 1
-                    rep.known_finding(kid, f["case"])
             else:
                 stats["mismatch"] += 1
                 if len(mism) < 20:
@@ -371,7 +379,7 @@ def run(tier, seed, replay=None):
     cov.update({
         "evaluations": len(cases),
         "distinct_nontrivial": len(nontriv),
-        "rule": "cases = witnesses of the refutation theorems on every target + exhaustive concatenations of up to %d tokens from {/ \\ space . a T LF textures data Textures} (all four needs_prefix x terrain configurations%s) + every slot of every (version, slot kind) target + seeded random byte strings up to %d bytes (arbitrary bytes incl. NUL and >= 0x80, drive and UNC prefixes, mixed-case words) + Save/Load cases + regex-deep shapes up to %d bytes; version/slot kind/slot drawn per case from the targets valid for the configuration (OB, SPECIAL -> needs_prefix=0; FO3, SK, SSE, FO4, FO76, SF -> 1). A case is non-trivial when the implementation's cleaned path is non-empty and differs from the input (effect-shader cases excluded: never cleaned); distinct = distinct (needs_prefix, terrain, path) triples" %
+        "rule": "cases = witnesses of the refutation theorems on every target + exhaustive concatenations of up to %d tokens from {/ \\ space . a T LF textures data Textures} (all four needs_prefix x terrain configurations%s) + every slot of every (version, slot kind) target + seeded random byte strings up to %d bytes (arbitrary bytes incl. NUL and >= 0x80, drive and UNC prefixes, mixed-case words) + Save/Load cases + regex-deep shapes up to %d bytes; version/slot kind/slot drawn per case from the targets valid for the configuration (OB, SPECIAL -> needs_prefix=0; FO3, SK, SSE, FO4, FO76, SF -> 1). A case is non-trivial when the implementation's cleaned path is non-empty and differs from the input; distinct = distinct (needs_prefix, terrain, path) triples" %
                 (maxtok, "" if tier == "quick" else " up to 5 tokens, one rotating configuration per path at 6", 200 if tier == "quick" else 4096, 4096 if tier == "quick" else 8192),
         "samples": cases[:2] + cases[len(cases) // 3:len(cases) // 3 + 2] + cases[2 * len(cases) // 3:2 * len(cases) // 3 + 2] + cases[-2:],
         "input_distribution": dist,
@@ -381,13 +389,13 @@ def run(tier, seed, replay=None):
         "spec_failures_on_impl": stats["specfail"],
         "spec_failures_by_known_class": stats["known"],
         "spec_failures_outside_known_classes": stats["unexplained"],
+        "repaired_defects_seen_again": stats["fixed_back"],
         "crashes": stats["crash"],
         "exceptions": stats["exceptions"],
         "refuted": {
-            "clean_idem / clean_canonical for OB+Special (needs_prefix=false)": "C19_clean_idem_refuted_ob, C19_clean_canonical_refuted_ob (a\\textures\\b\\textures\\c.dds), C19_clean_idem_refuted_ob_terrain (textures\\a), C19_clean_canonical_refuted_ob_ws (\"\\ a\"), C19_clean_canonical_refuted_ob_newline (x<LF>\\textures\\a)",
-            "clean_idem / clean_canonical without the no-mixed-separators hypothesis (all versions)": "C19_clean_idem_refuted_mixed (a/\\b)",
-            "clean_idem for terrain files of the prefixing games": "C19_clean_idem_refuted_terrain (textures\\textures\\x), C19_clean_idem_refuted_terrain_case (TEXTURES\\a)",
+            "clean_idem / clean_canonical for OB+Special (needs_prefix=false)": "C19_clean_idem_refuted_ob, C19_clean_canonical_refuted_ob, C19_clean_idem_refuted_ob_terrain (a\\textures\\b\\textures\\c.dds), C19_clean_canonical_refuted_ob_ws (\"\\ a\"), C19_clean_canonical_refuted_ob_newline (x<LF>\\textures\\a)",
         },
+        "repaired": "fixes/C19-mixed-separators, fixes/C19-terrain-restrip, fixes/C19-effect-shader-not-cleaned: the model describes the repaired code; C19_clean_single_bs, C19_clean_canonical_prefixing and C19_clean_idem_prefixing now hold for every path and both terrain values",
         "unproved": [],
         "modelled_not_verified": [
             "std::regex (libstdc++ ECMAScript engine): matching semantics modelled and differential-tested; its recursion depth and exceptions are runtime behaviour (measured: 20 000-byte paths pass, 50 000-byte paths overflow the 8 MiB stack in _M_dfs in both builds: beyond the property's 'few kilobytes')",
@@ -400,6 +408,6 @@ def run(tier, seed, replay=None):
     })
     return rep.finish(cov, [
         "theorems: is_relative answers true for every path without '/' (libstdc++ on POSIX); C locale (isspace set 9-13,32; ASCII-only case folding in std::regex icase)",
-        "canonical form and idempotence are proved for inputs without adjacent different separators, for the prefixing games (terrain: with the two stated side conditions), and for OB/Special outside the two recorded defect classes; the remaining classes are refuted, confirmed on the code and recorded in known_findings.json",
+        "canonical form and idempotence are proved for every path for the prefixing games (terrain or not), and for OB/Special outside the two recorded defect classes; those two classes are refuted, confirmed on the code and recorded in known_findings.json",
         "claim is partial: the regex pipeline is modelled; std::regex stack depth/exceptions, isspace on negative char and std::filesystem are observed at run time (ASan/UBSan build) on paths up to a few KiB only",
     ])
